@@ -10,7 +10,7 @@ from ..ctx import Raised
 
 PROP = 'C14'
 C_EPS = 10.0
-RULE = ('cases = dmrg_cross(f,N,eps) and function_interpolate(f,x,eps) (one argument tensor; a list of d meshgrid tensors; a list of d coupled tensors x_j = X_j + n_j X_{j+1} that each vary along two modes) on targets with exact TT ranks 1..4 (dense image of '
+RULE = ('cases = dmrg_cross(f,N,eps) and function_interpolate(f,x,eps) (one argument tensor; a list of d meshgrid tensors, or of d other rank-one int-valued tensors from which the multi-index is decodable - s_j*X_j and 2^{i_j}*3^{i_{j+1}}; a list of d coupled tensors x_j = X_j + n_j X_{j+1} that each vary along two modes) on targets with exact TT ranks 1..4 (dense image of '
         'a random TT; the function is a table lookup) and smooth targets 1/(2+sum i) (fast-decaying ranks); order 2..5, mode sizes 2..20 incl. non-uniform and smaller than '
         'rank+kick (the wide-QR regime), dense size <= 5e4, eps log-uniform in [1e-10,1e-3], k internal seeds, optional start tensor, default sweep budgets. Two monitors: '
         '(1) CALLBACK RECORDER: every argument handed to the user function is checked online - dmrg_cross: int64 2-d tensor with exactly d columns, column k in [0,N[k]); '
@@ -169,7 +169,55 @@ def run_case(case, ctx):
             invoke = lambda: ctx.lib('function_interpolate(list)', lambda *a: torchtt.interpolate.function_interpolate(fun, list(a), **kw), *xs)
         y = invoke()
     else:
-        xs = torchtt.meshgrid([torch.arange(m, dtype=dt) for m in N])
+        grids = torchtt.meshgrid([torch.arange(m, dtype=dt) for m in N])
+        # the d arguments: bare meshgrid components, or other RANK-ONE int-valued tensors from which the multi-index can still be decoded exactly:
+        # 'scaled'  x_j = s_j * X_j (the library keeps the scalar in the FIRST core, not in core j);  'pp'  x_j = 2^{i_j} * 3^{i_{j+1}} (varies along two modes)
+        form = ['grid', 'grid', 'scaled', 'pp'][case['seed'] % 4]
+        if form == 'pp' and (max(N) > 12 or d < 2):
+            form = 'scaled'
+        ctx.count('interp_multi/arguments:' + form)
+        sc = [[2.0, 3.0, -2.0, 5.0][(case['seed'] // 4 + j) % 4] for j in range(d)]
+        if form == 'scaled':
+            xs = [ctx.call('TT*scalar', lambda a, c=sc[j]: c * a, grids[j]) for j in range(d)]
+        elif form == 'pp':
+            xs = []
+            for j in range(d):
+                vs = [torch.ones(m, dtype=dt) for m in N]
+                vs[j] = vs[j] * (2.0 ** torch.arange(N[j], dtype=dt))
+                vs[(j + 1) % d] = vs[(j + 1) % d] * (3.0 ** torch.arange(N[(j + 1) % d], dtype=dt))
+                xs.append(ctx.call('rank1TT', lambda *v: torchtt.rank1TT(list(v)), *vs))
+        else:
+            xs = grids
+
+        def decode(V):
+            """index columns from the value matrix, or None when some value is not an entry of its argument tensor"""
+            if form == 'grid':
+                r = torch.round(V)
+                return r.long() if torch.equal(r, V) else None
+            if form == 'scaled':
+                q = V / torch.tensor(sc, dtype=V.dtype)
+                r = torch.round(q)
+                return r.long() if torch.equal(r, q) and torch.equal(r * torch.tensor(sc, dtype=V.dtype), V) else None
+            cols = []
+            for j in range(d):
+                v = V[:, j]
+                a = torch.zeros(v.shape[0], dtype=torch.long)
+                w_ = v.clone()
+                if bool((w_ < 1).any()) or not torch.equal(torch.round(w_), w_):
+                    return None
+                for _ in range(N[j]):
+                    even = torch.remainder(w_, 2.0) == 0
+                    a = a + even.long()
+                    w_ = torch.where(even, w_ / 2.0, w_)
+                b = torch.round(torch.log(w_) / 1.0986122886681098).long()
+                if not torch.equal(3.0 ** b.to(v.dtype), w_):
+                    return None
+                nxt = (j + 1) % d
+                cols.append((a, b, nxt))
+            for j in range(d):      # column j's view of mode j+1 must agree with column j+1's own mode
+                if not torch.equal(cols[j][1], cols[cols[j][2]][0]):
+                    return None
+            return torch.stack([c[0] for c in cols], dim=1)
 
         def fun(V):
             cb['calls'] += 1
@@ -177,17 +225,17 @@ def run_case(case, ctx):
                 flag('argument is %s, expected a float M x %d tensor' % (hooks.signature(V), d))
                 raise ValueError('malformed value matrix')
             cb['rows'] += V.shape[0]
-            r = torch.round(V)
+            J = decode(V) if V.shape[0] else torch.zeros((0, d), dtype=torch.long)
+            if J is None:
+                flag('row values are not entries of the argument tensors taken at one multi-index (%s arguments): first row %s' % (form, V[0].tolist()))
+                J = torch.zeros((V.shape[0], d), dtype=torch.long)
             if V.shape[0]:
-                if not torch.equal(r, V):
-                    flag('row values are not entries of the argument tensors (non-integer)')
                 for kcol in range(d):
-                    lo, hi = float(V[:, kcol].min()), float(V[:, kcol].max())
-                    cb['colmin'][kcol] = min(cb['colmin'][kcol], int(lo))
-                    cb['colmax'][kcol] = max(cb['colmax'][kcol], int(hi))
+                    lo, hi = int(J[:, kcol].min()), int(J[:, kcol].max())
+                    cb['colmin'][kcol] = min(cb['colmin'][kcol], lo)
+                    cb['colmax'][kcol] = max(cb['colmax'][kcol], hi)
                     if lo < 0 or hi > N[kcol] - 1:
-                        flag('row is not a tuple of entries of the argument tensors: column %d range [%r,%r], grid 0..%d' % (kcol, lo, hi, N[kcol] - 1))
-            J = r.long()
+                        flag('row is not a tuple of entries of the argument tensors: column %d index range [%r,%r], grid 0..%d' % (kcol, lo, hi, N[kcol] - 1))
             return Tt[tuple(J[:, kcol].clamp(0, N[kcol] - 1) for kcol in range(d))]
         kw = {'eps': eps}
         if start is not None:
